@@ -74,11 +74,17 @@ def run(ctx):
         'by an update on the same receiver (update-before-use)',
         'R2 layering: assembly / region / pin / material code never reaches a '
         'Reactor, the assembly list or another assembly; no function writes '
-        'module-level state after import']
+        'module-level state after import',
+        'R3 per-assembly loops of the model set-up and of the sweep carry no '
+        'decision from one assembly to the next: a local that is re-bound '
+        '(not accumulated) inside the loop body is never read in the body '
+        'before it is definitely bound in the same iteration']
     ctx.not_decided += ['numerical identity with the stand-alone run']
     res = Resolver(ctx.repo)
     r1(ctx, res)
     r2(ctx)
+    r3(ctx)
+    ctx.min_instances('C06.R3', 8)
     ctx.min_instances('C06.R1', 25)
     ctx.min_instances('C06.R2', 100)
 
@@ -578,3 +584,66 @@ def r2(ctx):
                 'the per-assembly step must not look at the assembly list',
                 key=ca.full + ' | no list access')
     ctx.extra['functions_checked_for_layering'] = n
+
+
+# ---------------------------------------------------------------------------
+# R3: no decision carried from one assembly to the next
+
+R3_SCOPE = ('dassh.reactor', 'dassh.assembly', 'dassh.core',
+            'dassh.region_rodded', 'dassh.region_unrodded', 'dassh.region',
+            'dassh.power', 'dassh.orificing', 'dassh.__main__')
+R3_OK = {
+    ('dassh.core:Core._calculate_gap_xpts', 'adj'):
+        'dead code: the method has no call site in the package',
+}
+_ASM_ITER = ('assemblies', 'asm_list', 'n_asm', 'asm_templates')
+
+
+def r3(ctx):
+    from .c13 import _exposed
+    n = 0
+    for fi in ctx.repo.all_funcs():
+        if fi.mod.name not in R3_SCOPE:
+            continue
+        for lp in walk_no_nested(fi.node):
+            if not (isinstance(lp, ast.For) and any(
+                    k in src(lp.iter) for k in _ASM_ITER)):
+                continue
+            tg = {x.id for x in ast.walk(lp.target)
+                  if isinstance(x, ast.Name)}
+            # outer loop variables are constant within one pass of this loop
+            outer = set()
+            for o in U.enclosing_loops(lp):
+                if isinstance(o, ast.For):
+                    outer |= {x.id for x in ast.walk(o.target)
+                              if isinstance(x, ast.Name)}
+            exp = _exposed(lp.body, set(fi.params) | tg | outer |
+                           {'self', 'np', 'dassh'})
+            rebound = set()
+            for st in ast.walk(lp):
+                if isinstance(st, ast.Assign):
+                    used = {x.id for x in ast.walk(st.value)
+                            if isinstance(x, ast.Name)}
+                    for t in st.targets:
+                        if isinstance(t, ast.Name) and t.id not in used:
+                            rebound.add(t.id)
+            n += 1
+            seen = set()
+            for x in exp:
+                if x.id in rebound and x.id not in seen and \
+                        (fi.full, x.id) not in R3_OK:
+                    seen.add(x.id)
+                    ctx.violation(
+                        'C06.R3', fi, x,
+                        '`%s` is re-bound inside the per-assembly loop at '
+                        'line %d but read here before it is bound in the same '
+                        'pass: the value an earlier assembly left behind '
+                        'decides for a later one (results depend on the '
+                        'order and on the other assemblies in the core)'
+                        % (x.id, lp.lineno),
+                        key='%s | carried %s' % (fi.full, x.id))
+            if not seen:
+                ctx.ok('C06.R3', fi, lp, 'nothing re-bound in the body is '
+                       'read before its binding')
+    if n == 0:
+        raise AnalysisError('C06.R3: no per-assembly loop found')
